@@ -467,3 +467,10 @@ Definition pe_wf (G : pe) : bool :=
   && forallb (fun m => (m <? pnsw G)%nat) (all_muxes G)
   && nodup_ids (map nid (pnodes G))
   && forallb (fun i => match switch_user G i with Some _ => true | None => false end) (seq 0 (pnsw G)).
+
+(* all alternatives are what the default constructor builds (no attribute distinguishes two operations of
+   one type): the domain of history_correct *)
+Definition plain_node (n : node) : bool := forallb (fun k => oattr k =? 0) (nops n).
+Definition plain_pe (G : pe) : bool := forallb plain_node (pnodes G).
+(* what convert_generic_body_to_phs produces for a body without attribute-carrying operations *)
+Definition kernel_ok (g : pe) : bool := is_concrete g && nodup_ids (map nid (pnodes g)) && plain_pe g.
